@@ -63,11 +63,11 @@ CLAIMS = {
          "vectors reach the final map (hash iteration order) cannot change any answer (C11_order_free, keys distinct). Determinism is "
          "exercised on the code by rebuilding in-process and re-running every case in other processes (fresh hash seeds) with "
          "verbatim comparison.", "DESIGN.md 5 (C11)"),
- "C12": ("Three theorems (Props/C12.v): for every chunk/interrupt schedule without a hard failure the stream of line reads equals that of the "
+ "C12": ("Five theorems (Props/C12.v): for every chunk/interrupt schedule without a hard failure the stream of line reads equals that of the "
          "flat bytes (std read_until transcribed); a raw read reports exactly the bytes consumed and returns the text without LF / CRLF; a blank "
          "line between sections changes the grammar's items only in quoted line numbers; C12_eol: the same text lines terminated by LF or by CRLF "
-         "are read back as the same texts. Final-newline independence is C12_raw_count (the last terminator may be absent) plus the "
-         "correspondence check over all encodings and chunkings.", "DESIGN.md 5 (C12), 4.2 (L8)"),
+         "are read back as the same texts; C12_final_newline: so are they when the last line lacks its terminator. Tied to the code by the "
+         "correspondence check over all encodings, paddings and chunkings.", "DESIGN.md 5 (C12), 4.2 (L8)"),
  "C13": ("Six theorems (Props/C13.v): decimal print/parse, header, data-record and line round trips for everything the parser accepts (hence "
          "canonical text prints back byte-identically), and re-serialised sections parse back to equal sections for every accepted file. Tied to "
          "the code with non-canonical spellings (leading zeros, '+'), odd contig names and whole files.", "DESIGN.md 5 (C13), 4.2 (L7)"),
